@@ -5,6 +5,7 @@ package persistence
 // goroutine). Used by the engine-level harnesses so that journal contents are deterministic.
 
 import (
+	"errors"
 	"os"
 
 	rt "github.com/sanonone/kektordb/pkg/zzverifrt"
@@ -40,7 +41,9 @@ func zzState(lw *LazyAOFWriter) *zzLazyState {
 	return st
 }
 
-var zzErrClosed = os.ErrClosed
+// (package os is never initialised by the executor, so its error variables are nil there: the model owns its errors)
+var zzErrClosed = errors.New("LazyAOFWriter is closed")
+var zzErrSnapMode = errors.New("snapshot mode already active / not active")
 
 func ZZLazyWrite(lw *LazyAOFWriter, data string) error {
 	st := zzState(lw)
@@ -142,7 +145,7 @@ func ZZLazyBegin(lw *LazyAOFWriter) error {
 		return zzErrClosed
 	}
 	if st.inSnap {
-		return os.ErrExist
+		return zzErrSnapMode
 	}
 	if err := zzFlush(lw, st); err != nil {
 		return err
@@ -160,7 +163,7 @@ func ZZLazyEnd(lw *LazyAOFWriter) ([]string, error) {
 		return nil, zzErrClosed
 	}
 	if !st.inSnap {
-		return nil, os.ErrInvalid
+		return nil, zzErrSnapMode
 	}
 	w := append([]string(nil), st.snap...)
 	st.snap = nil
